@@ -274,7 +274,13 @@ fn run_conc(l: &[Sx]) -> Sx {
         thread::sleep(Duration::from_millis(10));
     }
     if server.is_finished() {
-        let _ = server.join();
+        // listen() must return Ok after the stop flag; a panic of a worker thread resurfaces here
+        // (ThreadPool::drop joins the workers)
+        match server.join() {
+            Ok(true) => obs.push(sx::list(vec![sx::atom("server"), sx::atom("ok")])),
+            Ok(false) => obs.push(sx::list(vec![sx::atom("server"), sx::atom("err")])),
+            Err(_) => obs.push(sx::list(vec![sx::atom("server"), sx::atom("panic")])),
+        }
     } else {
         obs.push(sx::list(vec![sx::atom("server-did-not-stop")]));
     }
@@ -612,6 +618,32 @@ impl Suite for ListenSuite {
             cases.push(Case {
                 input: sx::tagged("listen-conc", vec![sx::atom(t), sx::nat(2), cfg.sx.clone(), sx::list(cl)]),
                 tags: vec!["stalled-peer-beside-prompt-peers".into()],
+            });
+        }
+        // (c) faulty peers sending long malformed messages with non-ASCII bytes at boundary offsets
+        {
+            let cfg = &cfgs[1];
+            let mut clients = Vec::new();
+            for base in [256usize, 1024] {
+                for d in 0..5usize {
+                    let off = base - 3 + d;
+                    let mut v: Vec<u8> = std::iter::repeat(b'x').take(off).collect();
+                    v.extend_from_slice("é".as_bytes());
+                    v.extend_from_slice(b"zz");
+                    v.push(0);
+                    tok += 1;
+                    let g = serde_json::to_vec(&serde_json::json!({"method":"org.varlink.service.GetInfo","parameters":{"token": format!("t{}z", tok)}})).unwrap();
+                    let mut total = g.clone();
+                    total.push(0);
+                    total.extend_from_slice(&v);
+                    clients.push(client_sx("half", 5 * d, &[total.clone()], &total));
+                }
+            }
+            let mut cl = vec![sx::atom("clients")];
+            cl.extend(clients);
+            cases.push(Case {
+                input: sx::tagged("listen-conc", vec![sx::atom("unix"), sx::nat(1), cfg.sx.clone(), sx::list(cl)]),
+                tags: vec!["faulty-peers-long-nonascii".into()],
             });
         }
         let n = if ctx.thorough { 160 } else { 28 };
